@@ -482,3 +482,330 @@ Proof.
   - exists []. split; [reflexivity|]. split; [|exact I]. cbn [tsum].
     replace (topn i) with 0 by (unfold topn; zlia). now rewrite mod_p2_0.
 Qed.
+
+(* ------------------------------------------------------------------ *)
+(* Hybrid, first pass                                                  *)
+(* ------------------------------------------------------------------ *)
+
+(* the range of a recorded run is cleared in y *)
+Definition cleared (y K : N) (t : term) : Prop :=
+  exists w, K < w /\ N.size (D t) <= w /\ forall j, E t <= j < E t + w -> N.testbit y j = false.
+
+Lemma hybrid_loop_spec K T : forall fuel y i, (-1 <= i)%Z -> (Z.to_nat (i + 1) < fuel)%nat ->
+  exists runs yf, hybrid_loop fuel y K T i = Ok (runs, yf) /\
+    tsum runs + yf = y /\
+    chained (runP K T) (topn i) runs /\
+    (forall j, N.testbit yf j = true -> N.testbit y j = true) /\
+    Forall (cleared yf K) runs.
+Proof.
+  induction fuel as [|f IH]; intros y i Hi Hf; [lia|]. cbn [hybrid_loop].
+  destruct (0 <=? i)%Z eqn:C.
+  - destruct (find_one_spec y i Hi) as (F1 & F2 & _). set (s := find_one y i) in *.
+    destruct (s <? 0)%Z eqn:C1.
+    + exists [], y. repeat split; try exact I; try constructor. auto.
+    + assert (Hb : bit y s = true) by (apply F2; lia).
+      destruct (run_end_spec y T s ltac:(lia) Hb) as (R1 & R2 & R3). set (i' := run_end y T s) in *.
+      destruct (Z.to_N (s - i') <=? K) eqn:CK.
+      * destruct (IH y i' ltac:(lia) ltac:(lia)) as (runs & yf & E1 & E2 & E3 & E4 & E5).
+        exists runs, yf. repeat split; try assumption.
+        eapply chained_weaken; [|exact E3]. unfold topn. lia.
+      * set (y' := xor_mask y (i' + 1) (s + 1)).
+        destruct (IH y' i' ltac:(lia) ltac:(lia)) as (runs & yf & E1 & E2 & E3 & E4 & E5).
+        rewrite E1. cbn [obind fst snd].
+        destruct (run_term_facts K T s i' (topn i) ltac:(lia) ltac:(unfold topn; lia) R3 ltac:(lia))
+          as (G1 & G2 & G3 & G4).
+        set (L := Z.to_N (i' + 1)) in *. set (S := Z.to_N (s + 1)) in *.
+        assert (HLS : L <= S) by (unfold L, S; lia).
+        assert (Hones : forall j, L <= j < S -> N.testbit y j = true).
+        { intros j Hj. replace j with (Z.to_N (Z.of_N j)) by lia. rewrite <- bit_eq by lia.
+          apply R2. unfold L, S in Hj. lia. }
+        assert (Hy' : y' = N.lxor y (mask_n L S)) by (unfold y'; apply xor_mask_eq; lia).
+        assert (Hy'bits : forall j, N.testbit y' j = xorb (N.testbit y j) ((L <=? j) && (j <? S))).
+        { intros j. rewrite Hy', N.lxor_spec, mask_n_bits by exact HLS. reflexivity. }
+        eexists. exists yf. split; [reflexivity|].
+        split; [|split; [|split]].
+        -- cbn [tsum]. rewrite G4. rewrite <- (xor_mask_sub y L S HLS Hones), <- Hy', <- E2.
+           clear. lia.
+        -- cbn [chained]. repeat split; try assumption.
+        -- intros j Hj. apply E4 in Hj. rewrite Hy'bits in Hj.
+           destruct ((L <=? j) && (j <? S)) eqn:R.
+           ++ apply Hones. clear - R. lia.
+           ++ now rewrite xorb_false_r in Hj.
+        -- constructor; [|exact E5].
+           exists (Z.to_N (s - i')). cbn [D E]. fold L.
+           split; [clear - CK; lia|]. split; [rewrite ones_n_eq; apply ones_size|].
+           intros j Hj. destruct (N.testbit yf j) eqn:B; [|reflexivity].
+           apply E4 in B. rewrite Hy'bits in B. rewrite Hones in B by (unfold L, S in *; lia).
+           replace ((L <=? j) && (j <? S)) with true in B by (unfold L, S in *; lia).
+           discriminate.
+  - exists [], y. repeat split; try exact I; try constructor. auto.
+Qed.
+
+(* ------------------------------------------------------------------ *)
+(* SortByExponent                                                      *)
+(* ------------------------------------------------------------------ *)
+
+Lemma insert_perm t : forall l, Permutation (t :: l) (insert_by_exponent t l).
+Proof.
+  induction l as [|u r IH]; cbn [insert_by_exponent]; [reflexivity|].
+  destruct (E u <? E t); [|reflexivity].
+  etransitivity; [apply perm_swap|]. now apply perm_skip.
+Qed.
+
+Lemma sort_perm : forall l, Permutation l (sort_by_exponent l).
+Proof.
+  induction l as [|t r IH]; cbn [sort_by_exponent fold_right]; [constructor|].
+  etransitivity; [apply perm_skip, IH|]. apply insert_perm.
+Qed.
+
+Definition leE (a b : term) : Prop := E a <= E b.
+Definition ltE (a b : term) : Prop := E a < E b.
+
+Lemma insert_sorted t : forall l, StronglySorted leE l -> StronglySorted leE (insert_by_exponent t l).
+Proof.
+  induction l as [|u r IH]; intros H; cbn [insert_by_exponent].
+  - repeat constructor.
+  - inversion H as [|? ? Hr Hu]; subst. destruct (E u <? E t) eqn:C.
+    + constructor; [now apply IH|].
+      eapply Permutation_Forall; [apply insert_perm|]. constructor; [unfold leE; lia|exact Hu].
+    + constructor; [exact H|]. constructor; [unfold leE; lia|].
+      eapply Forall_impl; [|exact Hu]. unfold leE. intros; lia.
+Qed.
+
+Lemma sort_sorted : forall l, StronglySorted leE (sort_by_exponent l).
+Proof.
+  induction l as [|t r IH]; cbn [sort_by_exponent fold_right]; [constructor|].
+  apply insert_sorted. exact IH.
+Qed.
+
+(* a symmetric pairwise relation does not care about the order of the list *)
+Lemma ss_perm_sym (R : term -> term -> Prop) : (forall a b, R a b -> R b a) ->
+  forall l l', Permutation l l' -> StronglySorted R l -> StronglySorted R l'.
+Proof.
+  intros Hsym. induction 1 as [|a l l' Hp IH|a b l|l l' l'' H1 IH1 H2 IH2]; intros H.
+  - exact H.
+  - inversion H as [|? ? Hr Ha]; subst. constructor; [now apply IH|].
+    eapply Permutation_Forall; [exact Hp|exact Ha].
+  - inversion H as [|? ? Hr Hb]; subst. inversion Hr as [|? ? Hl Ha]; subst.
+    inversion Hb as [|? ? Hba Hbl]; subst.
+    constructor; [constructor; assumption|]. constructor; [now apply Hsym|assumption].
+  - auto.
+Qed.
+
+Lemma ss_app (R : term -> term -> Prop) : forall l1 l2,
+  StronglySorted R l1 -> StronglySorted R l2 -> (forall a b, In a l1 -> In b l2 -> R a b) ->
+  StronglySorted R (l1 ++ l2).
+Proof.
+  induction l1 as [|a r IH]; intros l2 H1 H2 Hc; cbn [app]; [exact H2|].
+  inversion H1 as [|? ? Hr Ha]; subst. constructor.
+  - apply IH; try assumption. intros x y Hx Hy. apply Hc; [now right|exact Hy].
+  - apply Forall_app. split; [exact Ha|]. apply Forall_forall. intros y Hy. apply Hc; [now left|exact Hy].
+Qed.
+
+Lemma ss_impl (R R' : term -> term -> Prop) : (forall a b, R a b -> R' a b) ->
+  forall l, StronglySorted R l -> StronglySorted R' l.
+Proof.
+  intros Hi. induction 1 as [|a l Hl IH Ha]; constructor; [exact IH|].
+  eapply Forall_impl; [|exact Ha]. intros b. apply Hi.
+Qed.
+
+Lemma disj_sym a b : disj a b -> disj b a.
+Proof. unfold disj. tauto. Qed.
+
+(* sorted by exponent + pairwise disjoint ranges + positive: ranges are in order *)
+Lemma sorted_disj_before : forall l, StronglySorted leE l -> StronglySorted disj l -> Forall posD l ->
+  StronglySorted before l.
+Proof.
+  induction l as [|a r IH]; intros H1 H2 H3; [constructor|].
+  inversion H1 as [|? ? S1 F1]; subst. inversion H2 as [|? ? S2 F2]; subst.
+  inversion H3 as [|? ? Pa Pr]; subst.
+  constructor; [now apply IH|].
+  apply Forall_forall. intros b Hb.
+  rewrite Forall_forall in F1, F2, Pr. specialize (F1 b Hb). specialize (F2 b Hb). specialize (Pr b Hb).
+  destruct F2 as [F2|F2]; [exact F2|]. exfalso.
+  unfold before, hi, leE, posD in *. pose proof (size_pos (D b) Pr). lia.
+Qed.
+
+Lemma before_ltE l : Forall posD l -> StronglySorted before l -> StronglySorted ltE l.
+Proof.
+  intros HP H. induction H as [|a r Hr IH Ha]; [constructor|].
+  inversion HP as [|? ? Pa Pr]; subst. constructor; [now apply IH|].
+  eapply Forall_impl; [|exact Ha]. intros b Hb. unfold before, hi, ltE, posD in *.
+  pose proof (size_pos (D a) Pa). lia.
+Qed.
+
+Lemma ss_fop (R : term -> term -> Prop) l : StronglySorted R l -> ForallOrdPairs R l.
+Proof. induction 1; constructor; assumption. Qed.
+
+(* what every method establishes about its unsorted term list, and what follows after sorting *)
+Record raw_ok (P : term -> Prop) (x : N) (raw : list term) : Prop := {
+  raw_sum : tsum raw = x;
+  raw_disj : StronglySorted disj raw;
+  raw_pos : Forall posD raw;
+  raw_shape : Forall P raw }.
+
+Record sum_ok (P : term -> Prop) (x : N) (s : list term) : Prop := {
+  ok_sum : sum_int s = x;
+  ok_sorted : StronglySorted ltE s;
+  ok_pos : Forall posD s;
+  ok_disjoint : ForallOrdPairs before s;
+  ok_shape : Forall P s }.
+
+Lemma raw_perm P x a b : Permutation a b -> raw_ok P x a -> raw_ok P x b.
+Proof.
+  intros Hp [H1 H2 H3 H4]. constructor.
+  - rewrite <- (tsum_perm _ _ Hp). exact H1.
+  - eapply ss_perm_sym; [exact disj_sym|exact Hp|exact H2].
+  - eapply Permutation_Forall; [exact Hp|exact H3].
+  - eapply Permutation_Forall; [exact Hp|exact H4].
+Qed.
+
+Lemma sort_finish P x raw : raw_ok P x raw -> sum_ok P x (sort_by_exponent raw).
+Proof.
+  intros H. apply (raw_perm P x _ _ (sort_perm raw)) in H. destruct H as [H1 H2 H3 H4].
+  pose proof (sorted_disj_before _ (sort_sorted raw) H2 H3) as Hb.
+  constructor; try assumption.
+  - rewrite sum_int_eq. exact H1.
+  - now apply before_ltE.
+  - now apply ss_fop.
+Qed.
+
+Lemma chained_raw P x top ts : tsum ts = x -> chained P top ts -> raw_ok P x ts.
+Proof.
+  intros Hs Hc. destruct (chained_facts P ts top Hc) as (A & B & C).
+  constructor; try assumption.
+  eapply ss_impl; [|exact C]. intros a b Hab. right. exact Hab.
+Qed.
+
+Lemma mod_size x : x mod 2 ^ N.size x = x.
+Proof. apply N.mod_small, N.size_gt. Qed.
+
+(* ------------------------------------------------------------------ *)
+(* The four methods                                                    *)
+(* ------------------------------------------------------------------ *)
+
+Definition slidingShape (K : N) (t : term) : Prop := N.odd (D t) = true /\ N.size (D t) <= K.
+Definition runShape (T : N) (t : term) : Prop := exists w, D t = 2 ^ w - 1 /\ (0 < T -> w <= T).
+Definition hybridShape (K T : N) (t : term) : Prop :=
+  N.odd (D t) = true /\
+  (N.size (D t) <= K \/ exists w, D t = 2 ^ w - 1 /\ K < w /\ (0 < T -> w <= T)).
+
+Theorem fixed_ok K x : 1 <= K ->
+  exists s, fixed_decompose K x = Ok s /\ sum_ok (fixedP K) x s.
+Proof.
+  intros HK. unfold fixed_decompose. rewrite bitlen_int_eq, fuel_of_eq.
+  destruct (fixed_loop_spec x K HK (S (N.to_nat (N.size x))) (Z.of_N (N.size x)) ltac:(lia) ltac:(lia))
+    as (ts & E1 & E2 & E3).
+  rewrite E1. cbn [obind]. eexists. split; [reflexivity|]. apply sort_finish.
+  rewrite N2Z.id in *. rewrite mod_size in E2. eapply chained_raw; eassumption.
+Qed.
+
+Lemma sliding_raw K x : 1 <= K ->
+  exists ts, sliding_loop (fuel_of x) x K (bitlen_int x - 1) = Ok ts /\ raw_ok (slidingP x K) x ts.
+Proof.
+  intros HK. rewrite bitlen_int_eq, fuel_of_eq.
+  destruct (sliding_loop_spec x K HK (S (N.to_nat (N.size x))) (Z.of_N (N.size x) - 1) ltac:(lia) ltac:(lia))
+    as (ts & E1 & E2 & E3).
+  exists ts. split; [exact E1|].
+  replace (topn (Z.of_N (N.size x) - 1)) with (N.size x) in * by (unfold topn; lia).
+  rewrite mod_size in E2. eapply chained_raw; eassumption.
+Qed.
+
+Lemma slidingP_shape x K t : slidingP x K t -> slidingShape K t.
+Proof. intros H. split; [eapply slidingP_odd|eapply slidingP_size]; exact H. Qed.
+
+Lemma sum_ok_impl (P Q : term -> Prop) x s : (forall t, P t -> Q t) -> sum_ok P x s -> sum_ok Q x s.
+Proof. intros Hi [H1 H2 H3 H4 H5]. constructor; try assumption. eapply Forall_impl; [|exact H5]. exact Hi. Qed.
+
+Theorem sliding_ok K x : 1 <= K ->
+  exists s, sliding_decompose K x = Ok s /\ sum_ok (slidingShape K) x s.
+Proof.
+  intros HK. unfold sliding_decompose. destruct (sliding_raw K x HK) as (ts & E1 & E2).
+  rewrite E1. cbn [obind]. eexists. split; [reflexivity|].
+  eapply sum_ok_impl; [apply slidingP_shape|]. apply sort_finish. exact E2.
+Qed.
+
+Lemma runP_shape K T t : runP K T t -> runShape T t.
+Proof. intros (w & A & B & C). exists w. auto. Qed.
+
+Theorem runlength_ok T x :
+  exists s, runlength_decompose T x = Ok s /\ sum_ok (runShape T) x s.
+Proof.
+  unfold runlength_decompose. rewrite bitlen_int_eq, fuel_of_eq.
+  destruct (runlength_loop_spec x T (S (N.to_nat (N.size x))) (Z.of_N (N.size x) - 1) ltac:(lia) ltac:(lia))
+    as (ts & E1 & E2 & E3).
+  rewrite E1. cbn [obind]. eexists. split; [reflexivity|].
+  replace (topn (Z.of_N (N.size x) - 1)) with (N.size x) in * by (unfold topn; lia).
+  rewrite mod_size in E2.
+  eapply sum_ok_impl; [apply (runP_shape 0)|]. apply sort_finish. eapply chained_raw; eassumption.
+Qed.
+
+(* a cleared range of more than K bits and a window of at most K bits with set ends are apart *)
+Lemma cross_disj y K a b : cleared y K a -> slidingP y K b -> disj a b.
+Proof.
+  intros (w & Hw & Hsz & Hz) (h & A & B & C & Dd & F).
+  assert (Sb : N.size (D b) <= h + 1 - E b) by (rewrite F; apply size_le_of_lt, ext_lt).
+  assert (N1 : ~ (E a <= E b < E a + w)) by (intros X; rewrite (Hz _ X) in C; discriminate).
+  assert (N2 : ~ (E a <= h < E a + w)) by (intros X; rewrite (Hz _ X) in Dd; discriminate).
+  unfold disj, before, hi. clear - Hw Hsz A B Sb N1 N2. lia.
+Qed.
+
+Lemma runP_hybridShape K T t : runP K T t -> hybridShape K T t.
+Proof.
+  intros (w & A & B & C). split.
+  - rewrite B. apply ones_odd. lia.
+  - right. exists w. auto.
+Qed.
+
+Lemma slidingP_hybridShape x K T t : slidingP x K t -> hybridShape K T t.
+Proof. intros H. split; [eapply slidingP_odd|left; eapply slidingP_size]; exact H. Qed.
+
+Theorem hybrid_ok K T x : 1 <= K ->
+  exists s, hybrid_decompose K T x = Ok s /\ sum_ok (hybridShape K T) x s.
+Proof.
+  intros HK. unfold hybrid_decompose. rewrite bitlen_int_eq, fuel_of_eq.
+  destruct (hybrid_loop_spec K T (S (N.to_nat (N.size x))) x (Z.of_N (N.size x) - 1) ltac:(lia) ltac:(lia))
+    as (runs & yf & E1 & E2 & E3 & E4 & E5).
+  rewrite E1. cbn [obind fst snd]. unfold sliding_decompose.
+  destruct (sliding_raw K yf HK) as (ts & S1 & S2).
+  rewrite S1. cbn [obind]. eexists. split; [reflexivity|]. apply sort_finish.
+  pose proof (raw_perm _ _ _ _ (sort_perm ts) S2) as [R1 R2 R3 R4].
+  destruct (chained_facts _ _ _ E3) as (C1 & C2 & C3).
+  constructor.
+  - rewrite tsum_app, R1. exact E2.
+  - apply ss_app; [|exact R2|].
+    + eapply ss_impl; [|exact C3]. intros a b Hab. right. exact Hab.
+    + intros a b Ha Hb. rewrite Forall_forall in E5, R4. eapply cross_disj; [apply E5, Ha|apply R4, Hb].
+  - apply Forall_app. split; assumption.
+  - apply Forall_app. split.
+    + eapply Forall_impl; [|exact C1]. apply runP_hybridShape.
+    + eapply Forall_impl; [|exact R4]. apply slidingP_hybridShape.
+Qed.
+
+(* ------------------------------------------------------------------ *)
+(* All methods at once                                                 *)
+(* ------------------------------------------------------------------ *)
+
+Definition valid_method (m : method) : Prop :=
+  match m with
+  | Fixed K | Sliding K | Hybrid K _ => 1 <= K
+  | RunLength _ => True
+  end.
+
+Definition shape (m : method) (t : term) : Prop :=
+  match m with
+  | Fixed K => N.size (D t) <= K
+  | Sliding K => slidingShape K t
+  | RunLength T => runShape T t
+  | Hybrid K T => hybridShape K T t
+  end.
+
+Theorem decompose_ok m x : valid_method m ->
+  exists s, decompose m x = Ok s /\ sum_ok (shape m) x s.
+Proof.
+  destruct m as [K|K|T|K T]; cbn [valid_method decompose shape]; intros H.
+  - exact (fixed_ok K x H).
+  - exact (sliding_ok K x H).
+  - exact (runlength_ok T x).
+  - exact (hybrid_ok K T x H).
+Qed.
